@@ -149,7 +149,11 @@ class C13(Check):
         fn = f"<c13mod{_N[0]}>"
         _N[0] += 1
         text = ("def build(ds, v):\n    return ds.Select(\n        lambda e: e.f(v)\n    )\n"
-                "G = None\ndef build_g(ds):\n    return ds.Select(\n        lambda e: e.f(G)\n    )\n")
+                "G = None\ndef build_g(ds):\n    return ds.Select(\n        lambda e: e.f(G)\n    )\n"
+                "def build_nested(ds, v):\n    return ds.Select(\n        lambda e: e.jets.Select(lambda j: j.f(v))\n    )\n"
+                "def build_nested2(ds, v):\n    return ds.Select(\n        lambda e: e.jets.Select(lambda j: j.tr.Where(lambda t: t.f(v) > 1))\n    )\n"
+                "def build_comp(ds, v):\n    return ds.Select(\n        lambda e: [j.f(v) for j in e.jets if j.pt > 1]\n    )\n"
+                "def build_other(ds, v):\n    return ds.Select(\n        lambda e: e.jets.OrderBy(lambda j: j.f(v))\n    )\n")
         linecache.cache[fn] = (len(text), None, text.splitlines(True), fn)
         g = {}
         exec(compile(text, fn, "exec"), g)
@@ -164,6 +168,18 @@ class C13(Check):
             return lam, lam.body.args[0]
         yield "captured-closure", closure
         yield "captured-global", glob
+
+        def deeper(which):
+            def run():
+                lam = g[which](DS(), v).query_ast.args[1]
+                calls = [n for n in ast.walk(lam) if isinstance(n, ast.Call) and isinstance(n.func, ast.Attribute) and n.func.attr == "f"]
+                return lam, (calls[0].args[0] if calls and calls[0].args else None)
+            return run
+        # the captured value below the top of the lambda: nested operator lambdas, a comprehension, a method the library does not know
+        yield "captured-closure:nested-lambda", deeper("build_nested")
+        yield "captured-closure:nested-lambda-depth2", deeper("build_nested2")
+        yield "captured-closure:comprehension", deeper("build_comp")
+        yield "captured-closure:lambda-argument-of-unknown-method", deeper("build_other")
 
         def named():
             if "mod" not in _NAMED:
